@@ -337,16 +337,18 @@ class C14(Spec):
                 "C14_refuted_resolver_unbounded_recursion_on_cyclic_import"]
     MODEL_OPS = {3303}
     builds = [("default", "dev"), ("default", "release"), ("protobuf", "dev")]
-    level_text = ("Every input is pushed through the real tokenizer, parser, resolver, to_rust and (protobuf build) to_protobuf, each "
-                  "stage under catch_unwind, the child process under a time limit; the Gallina model (tokenizer, parser, resolver, "
-                  "and the TagResolver recursion of to_rust with divergence as an outcome) predicts the outcome class of every "
-                  "stage incl. error kind and token position, and is compared on every ASCII input (non-ASCII inputs: char::is_numeric "
-                  "is outside the model, comparison vacuous, oracle still applied). Theorems: PARTIAL -- the tokenizer model never "
-                  "returns an error and panics only with the unclosed-comment panic! or the i32 overflow of the nesting counter; "
-                  "C14_parse_total_partial: tags, SIZE, object identifiers, IMPORTS and ENUMERATED never panic and never run out of "
-                  "fuel on any token list; vm_compute witnesses of the two divergences; "
-                  "fuel sufficiency of the mutually recursive type grammar and of the module loop is NOT proved: fuel exhaustion would "
-                  "show in the tie as answer -3.")
+    level_text = ('Every input is pushed through the real tokenizer, parser, resolver, to_rust and (protobuf build) to_protobuf, '
+                  'each stage under catch_unwind, the child process under a time limit; the Gallina model (tokenizer, parser, '
+                  'resolver, and the TagResolver recursion of to_rust with divergence as an outcome) predicts the outcome class '
+                  'of every stage incl. error kind and token position, and is compared on every ASCII input (non-ASCII inputs: '
+                  'char::is_numeric is outside the model, comparison vacuous, oracle still applied). Theorems '
+                  '(Front/{LexProofs,ParseTotalProofs}.v): the tokenizer model never returns an error and panics only with the '
+                  'unclosed-comment panic! or the i32 overflow of the nesting counter; C14_parse_total: for EVERY token list the '
+                  'whole parser model (module header, imports, definitions, the mutual type grammar, literals, WITH COMPONENTS) '
+                  'never panics and never runs out of fuel once fuel >= 2*length+4 (so every loop consumes a token: no '
+                  'non-termination), C14_lex_parse_total composes both, C14_error_carries_token: every error carries a token of '
+                  'the input (or the synthesised literal token at an input position). Totality of resolve / to_rust / to_protobuf '
+                  'is by the tie and the process supervisor only; the two known divergences have vm_compute witnesses.')
     rule = ("valid modules (the C07 generator, nesting <= 5, and hand-written ones) mutated by 1..4 character/token deletions, "
             "insertions (ASCII, control and non-ASCII characters; the ASN.1 vocabulary), swaps, replacements, duplications and "
             "truncations; token soups from the ASN.1 vocabulary (bare and behind a module header); the unmutated modules. "
